@@ -119,6 +119,11 @@ def _campaign(mod, args, seed, runner, findings, evidence):
             if not args.no_shrink and not sig.startswith("crash") and not sig.startswith("hang"):
                 case, steps = runner.shrink(mod, case, sig, per_bucket,
                                             runner=(camp._isolated if isolated else None))
+            if steps:
+                # describe the shrunk case, not the original one
+                again = (camp._isolated if isolated else (lambda c: runner.safe_run(mod, c)))(case)
+                if again.get("st") == "viol" and again.get("sig") == sig:
+                    out = again
             h = common.case_hash({"sig": sig})
             path = os.path.join("replays", mod.ID, "found-%s.json" % h)
             with open(os.path.join(common.VERIF, path), "w") as f:
